@@ -3,6 +3,8 @@ import hashlib, json, os, re, time
 
 VERIF = os.path.dirname(os.path.dirname(os.path.abspath(__file__)))
 KNOWN = os.path.join(VERIF, "known_findings.json")
+# scratch runs (seeded-change experiments against a copy of /repo) must not overwrite the registered evidence
+EVDIR = os.environ.get("VERIF_EVIDENCE_DIR") or os.path.join(VERIF, "evidence")
 
 
 class Rule:
@@ -94,7 +96,7 @@ class Report:
         stale = [k for k, v in kmap.items() if v.get("status") == "known" and k not in found_keys]
         for k in stale:
             lines.append("note: known finding no longer found (stale entry, suppresses nothing): " + k)
-        vdir = os.path.join(VERIF, "evidence", "violations", self.prop)
+        vdir = os.path.join(EVDIR, "violations", self.prop)
         vlines = []
         for r, i, key in viol:
             os.makedirs(vdir, exist_ok=True)
@@ -146,8 +148,8 @@ class Report:
             "violations": len(viol),
         }
         ev["coverage"].update(self.extra)
-        os.makedirs(os.path.join(VERIF, "evidence"), exist_ok=True)
-        with open(os.path.join(VERIF, "evidence", self.prop + ".json"), "w") as fh:
+        os.makedirs(EVDIR, exist_ok=True)
+        with open(os.path.join(EVDIR, self.prop + ".json"), "w") as fh:
             json.dump(ev, fh, indent=1)
         for l in lines:
             print(l)
